@@ -13,9 +13,10 @@ The JSON TEXT of `get_json` (`json.dumps(data, indent=2)` + the span-compaction 
 Model/JsonText.lean; section "B1" at the end of this file: the compaction never touches a string literal, deletes
 white space only and preserves the parsed value of every text; the text lexes to the tokens of the data.
 
-Not proved here, only exercised by the harness: the token-level inverse `json.loads ∘ json.dumps` of the standard
-library (`parseToks (toksV v) = some v`: number and `\uXXXX` arithmetic), `sqlite3`, and the agreement of the model
-with the Python (correspondence).
+`C11_json_roundtrip`: it parses back to the data.
+
+Not proved here, only exercised by the harness: `sqlite3`, and the agreement of the models with the Python
+(correspondence; for the text layer BYTE FOR BYTE against the real `get_json`).
 -/
 import Paroxy.Proofs.MakeDbResolved
 import Paroxy.Spec.Filter
@@ -632,25 +633,29 @@ theorem C11_text_tokens (v : J) :
     lex .out (dumps2 v ++ [10]) = some (toksV v) ∧ lex .out (getJsonText v) = some (toksV v) :=
   ⟨lex_dumps2 v, lex_getJsonText v⟩
 
-/-- The full round trip (statement). `J.ok`: no high surrogate code point directly followed by a low one inside a
-string — Python's own `json.loads(json.dumps(s))` merges such a pair into one astral character; texts decoded from
-UTF-8 files hold no surrogate at all. -/
-def C11_json_roundtrip : Prop := ∀ v : J, J.ok v = true → loads (getJsonText v) = some v
-
-/-- Token-level form: the text layer (layout, escaping into printable ASCII, compaction) is discharged for every
-value; the text parses back to `v` as soon as the tokens of `v` do. -/
+/-- Token-level form: the text layer (layout, escaping into printable ASCII, compaction) for every value, without
+hypothesis on its strings: the text parses back to `v` as soon as the tokens of `v` do. -/
 theorem C11_json_roundtrip_of_tokens (v : J) (h : parseToks (toksV v) = some v) : loads (getJsonText v) = some v := by
   unfold loads; rw [lex_getJsonText v]; exact h
 
-/-- Proved part of `C11_json_roundtrip`: the whole round trip — layout, escaping, compaction, lexing, the recursive
-descent, `int(str(n)) = n` with the no-leading-zero rule — for every value of any size and nesting, MODULO the single
-statement `DecodeEsc` (`decode (escStr s) = some s` for strings without a surrogate pair: arithmetic on the four
-hexadecimal digits of `\uXXXX` and on UTF-16 surrogates, a fact about one string at a time in which neither the
-layout nor the compaction takes part). `DecodeEsc` is exercised by the streams `json-dumps`, `loads-texts` and
-`json-text.*` (`back` of the `c11.dumps` op evaluates `loads (getJsonText v) = v` on every generated value, with control
-characters, non-ASCII, astral characters and lone surrogates). -/
-theorem C11_json_roundtrip_partial (hs : DecodeEsc) : C11_json_roundtrip := fun v hok =>
-  C11_json_roundtrip_of_tokens v (parseToks_toksV hs v hok)
+/-- Strings and numbers come back: `decode (escStr s) = s` (all escapes of `ensure_ascii=True`: `\"`, `\\`, `\n`, `\r`,
+`\t`, `\b`, `\f`, `\u00XX`, `\uXXXX`, surrogate pairs of astral characters, lone surrogates) and `int(str(n)) = n`. -/
+theorem C11_leaves_roundtrip :
+    (∀ s : Str, strOk s = true → decode (escStr s) = some s) ∧ (∀ n : Nat, numOf (JsonText.natDigits n) = some n) :=
+  ⟨decodeEsc, numRoundtrip⟩
+
+/-- **The JSON written by `collect` parses back to exactly what was computed.** For every value `v` of the database
+shape — any size and nesting, any strings (sources containing laid-out look-alike span lists, quotes, backslashes,
+control characters, non-ASCII and astral characters, lone surrogates) — `loads (compact (dumps2 v ++ "\n")) = some v`.
+`J.ok`: every code point is below 0x110000 and no high surrogate code point is directly followed by a low one inside a
+string — Python's own `json.loads(json.dumps(s))` merges such a pair into one astral character (`example` below);
+texts decoded from UTF-8 files hold no surrogate at all. -/
+theorem C11_json_roundtrip (v : J) (hok : J.ok v = true) : loads (getJsonText v) = some v :=
+  C11_json_roundtrip_of_tokens v (parseToks_toksV decodeEsc v hok)
+
+/-- the hypothesis `J.ok` is needed, in the model as in Python: two surrogate items come back as one character. -/
+example : loadsIs (getJsonText (.str [55296, 56320])) (.str [65536]) = true ∧ J.ok (.str [55296, 56320]) = false := by
+  decide +kernel
 
 /-- Non-vacuity: a database value whose source string contains a laid-out look-alike span list, next to a real span
 list. The look-alike survives character for character; the real one is compacted; the text parses back to the value. -/
